@@ -14,6 +14,8 @@ attribute [rs_eval] DictPoller.ext DictPoller.instant
   DictPoller.pathBuf DictPoller.dispatchBox DictPoller.receiver DictPoller.clockId DictPoller.okUnit
   DictPoller.instantLo
 rs_register_eqns DictPoller.typedMessage DictPoller.path DictPoller.call DictPoller.method
+-- the by-reference call rule of the core (`Rs/Interp.lean`, [poller]): only this group's proofs unfold it
+rs_register_eqns callDeclRef
 
 /-- the `use`d constants on Linux, from the regenerated table: REALTIME = 0, MONOTONIC = 6 (COARSE) -/
 theorem linuxUses_eq :
